@@ -21,6 +21,7 @@ import (
 	"sort"
 	"strings"
 
+	"github.com/youchainhq/go-youchain/common"
 	"github.com/youchainhq/go-youchain/consensus/ucon"
 	"github.com/youchainhq/go-youchain/core/state"
 	"github.com/youchainhq/go-youchain/core/types"
@@ -28,6 +29,7 @@ import (
 	"github.com/youchainhq/go-youchain/params"
 	"github.com/youchainhq/go-youchain/rlp"
 	"github.com/youchainhq/go-youchain/staking"
+	"github.com/youchainhq/go-youchain/youdb"
 	"verif/harness/vf"
 )
 
@@ -40,6 +42,81 @@ type entry struct {
 	mk     func() reflect.Value // pointer to a fresh decode target
 	weight int
 	group  string // class named in the property
+	via    []viaFn // the functions of the node that decode this type from bytes
+}
+
+// a real entry point: the function the node itself calls on untrusted (or stored) bytes
+type viaFn struct {
+	name   string
+	stream bool // known to read one value and leave the rest (listed finding)
+	dec    func(b []byte) (reflect.Value, error)
+}
+
+func addVia(typeName string, v viaFn) {
+	e := entryByName(typeName)
+	if e == nil {
+		panic("no entry " + typeName)
+	}
+	e.via = append(e.via, v)
+}
+
+func initVia() {
+	addVia("UconMessage", viaFn{name: "ucon.Decode", dec: func(b []byte) (reflect.Value, error) {
+		m, err := ucon.Decode(b)
+		if err != nil {
+			return reflect.Value{}, err
+		}
+		return reflect.ValueOf(m), nil
+	}})
+	payload := func(mk func() interface{}) func(b []byte) (reflect.Value, error) {
+		return func(b []byte) (reflect.Value, error) {
+			o := mk()
+			err := (&ucon.Message{Payload: b}).DecodePayload(o)
+			return reflect.ValueOf(o), err
+		}
+	}
+	addVia("ConsensusCommon", viaFn{name: "ucon.Message.DecodePayload", dec: payload(func() interface{} { return &ucon.ConsensusCommon{} })})
+	addVia("Block", viaFn{name: "ucon.Message.DecodePayload", dec: payload(func() interface{} { return &types.Block{} })})
+	addVia("BlockHashWithVotes", viaFn{name: "ucon.Message.DecodePayload", dec: payload(func() interface{} { return &ucon.BlockHashWithVotes{} })})
+	addVia("BlockConsensusData", viaFn{name: "ucon.ExtractConsensusData", dec: func(b []byte) (reflect.Value, error) {
+		d, err := ucon.ExtractConsensusData(&types.Header{Consensus: b})
+		if err != nil {
+			return reflect.Value{}, err
+		}
+		return reflect.ValueOf(d), nil
+	}})
+	for _, lb := range []params.LookBackType{params.LookBackPos, params.LookBackCert} {
+		lb := lb
+		addVia("UconValidators", viaFn{name: "ucon.ExtractUconValidators", dec: func(b []byte) (reflect.Value, error) {
+			d, err := ucon.ExtractUconValidators(&types.Header{Validator: b, Certificate: b}, lb)
+			if err != nil {
+				return reflect.Value{}, err
+			}
+			if d == nil {
+				return reflect.Value{}, fmt.Errorf("nil result")
+			}
+			return reflect.ValueOf(d), nil
+		}})
+	}
+	addVia("VoteItem", viaFn{name: "ucon.ReadVoteData", stream: true, dec: func(b []byte) (reflect.Value, error) {
+		db := youdb.NewMemDatabase()
+		addr := common.Address{7}
+		if err := db.Put(ucon.AddrTypeKey(addr, ucon.Prevote, 1), b); err != nil {
+			return reflect.Value{}, err
+		}
+		v := ucon.ReadVoteData(db, addr, ucon.Prevote, 1)
+		if v == nil {
+			return reflect.Value{}, fmt.Errorf("rejected")
+		}
+		return reflect.ValueOf(v), nil
+	}})
+}
+
+func (e *entry) pickVia(r *vf.Rng) *viaFn {
+	if len(e.via) == 0 || r.Chance(40) {
+		return nil
+	}
+	return &e.via[r.Intn(len(e.via))]
 }
 
 var entries []*entry
@@ -112,6 +189,7 @@ func initEntries() {
 	addEntry("NewBlockHashesData", "protocol", 2, NewBlockHashesData{}, nil)
 	addEntry("BlocksData", "protocol", 1, BlocksData{}, nil)
 	addEntry("GetNodeDataMsgData", "protocol", 2, GetNodeDataMsgData{}, nil)
+	initVia()
 }
 
 func pickEntry(r *vf.Rng) *entry {
@@ -195,6 +273,29 @@ func goDecode(e *entry, b []byte, measure bool) (o obs) {
 	if measure {
 		o.Alloc = allocated() - a0
 	}
+	return o
+}
+
+// the same observation through a real entry point of the node
+func goDecodeVia(e *entry, v *viaFn, b []byte) (o obs) {
+	if lastInputFile != "" {
+		ioutil.WriteFile(lastInputFile, []byte(fmt.Sprintf("{\"what\":\"fatal-runtime-error-while-decoding\",\"type\":%q,\"via\":%q,\"bytes\":%q}\n", e.name, v.name, hex.EncodeToString(b))), 0644)
+	}
+	a0 := allocated()
+	func() {
+		defer func() {
+			if x := recover(); x != nil {
+				o.Panic = fmt.Sprint(x)
+			}
+		}()
+		obj, err := v.dec(b)
+		if err != nil {
+			o.Err = err.Error()
+		} else {
+			o.Accepted, o.obj = true, obj
+		}
+	}()
+	o.Alloc = allocated() - a0
 	return o
 }
 
@@ -283,6 +384,55 @@ func (g *genState) streamCase(e *entry, b []byte, mut string) {
 	}
 	if unread > 0 {
 		g.res.Count("stream_accept_with_unread_bytes")
+		g.hit(hit{What: trailingKey, Type: e.name, Bytes: c.Bytes, Re: c.Re, Mode: "stream", Note: fmt.Sprintf("%d bytes after the value were tolerated (%s)", unread, mut)})
+	}
+	c.coq = fmt.Sprintf("PStream %d %s (Some (%s, %d))", e.id, byteList(b), byteList(re), unread)
+	g.add(c)
+}
+
+// the listed finding: call sites that read one value from a stream accept anything after it
+const trailingKey = "noncanonical-accept:trailing-bytes-tolerated:stream-call-site"
+
+// a real entry point that is known to be stream-style (v.stream): the number of
+// unread bytes is not observable, the reference parser tells where the first value ends
+func (g *genState) streamViaCase(e *entry, v *viaFn, b []byte, mut string) {
+	if len(b) == 0 {
+		return
+	}
+	o := goDecodeVia(e, v, b)
+	g.res.Count("via:" + v.name)
+	c := Case{Kind: "stream", Type: e.name, ty: e.id, Bytes: hex.EncodeToString(b), Mut: mut, Via: v.name}
+	if o.Panic != "" {
+		g.hit(hit{What: "panic:decode:" + e.name, Type: e.name, Bytes: c.Bytes, Note: o.Panic, Via: v.name})
+		return
+	}
+	if !o.Accepted {
+		g.res.Count("stream_reject")
+		c.coq = fmt.Sprintf("PStream %d %s None", e.id, byteList(b))
+		g.add(c)
+		return
+	}
+	re, errs, pan := goEncode(o.obj)
+	_, rest, perr := parse(b, 0)
+	if pan != "" || errs != "" || perr != nil {
+		g.hit(hit{What: "noncanonical-accept:unclassified:" + e.name, Type: e.name, Bytes: c.Bytes, Note: "accepted by " + v.name + " " + pan + errs, Via: v.name})
+		return
+	}
+	unread := len(rest)
+	c.Acc, c.Re = true, hex.EncodeToString(re)
+	if !bytes.Equal(re, b[:len(b)-unread]) {
+		cl := classify(e, b[:len(b)-unread], re)
+		what := "noncanonical-accept:" + cl
+		if cl == "" {
+			what = "noncanonical-accept:unclassified:" + e.name
+		}
+		g.hit(hit{What: what, Type: e.name, Bytes: c.Bytes, Re: c.Re, Note: mut, Via: v.name})
+	} else {
+		g.res.Count("stream_accept_canonical")
+	}
+	if unread > 0 {
+		g.res.Count("stream_accept_with_unread_bytes")
+		g.hit(hit{What: trailingKey, Type: e.name, Bytes: c.Bytes, Re: c.Re, Via: v.name, Note: fmt.Sprintf("%d bytes after the value were tolerated (%s)", unread, mut)})
 	}
 	c.coq = fmt.Sprintf("PStream %d %s (Some (%s, %d))", e.id, byteList(b), byteList(re), unread)
 	g.add(c)
@@ -300,6 +450,7 @@ type Case struct {
 	Acc   bool   `json:"accepted,omitempty"`
 	Re    string `json:"reencoded,omitempty"`
 	Mut   string `json:"mutation,omitempty"`
+	Via   string `json:"via,omitempty"`
 	coq   string
 }
 
@@ -310,6 +461,8 @@ type hit struct {
 	Bytes string `json:"bytes"`
 	Re    string `json:"reencoded,omitempty"`
 	Note  string `json:"note,omitempty"`
+	Via   string `json:"via,omitempty"`  // entry point used (default rlp.DecodeBytes)
+	Mode  string `json:"mode,omitempty"` // corpus: "stream" = offer through a Stream as p2p Msg.Decode does
 	Value *MV    `json:"value,omitempty"`
 }
 
@@ -487,10 +640,35 @@ func (g *genState) add(c Case) {
 
 // bytes b offered to the decoder of type e
 func (g *genState) bytesCase(e *entry, b []byte, mut string) {
-	o := goDecode(e, b, true)
+	g.bytesCaseVia(e, e.pickVia(g.r), b, mut)
+}
+
+func viaByName(e *entry, n string) *viaFn {
+	for i := range e.via {
+		if e.via[i].name == n {
+			return &e.via[i]
+		}
+	}
+	return nil
+}
+
+// bytes b offered to type e through rlp.DecodeBytes (v == nil) or through the entry point v
+func (g *genState) bytesCaseVia(e *entry, v *viaFn, b []byte, mut string) {
+	if v != nil && v.stream {
+		g.streamViaCase(e, v, b, mut)
+		return
+	}
+	var o obs
 	c := Case{Kind: "dec", Type: e.name, ty: e.id, Bytes: hex.EncodeToString(b), Mut: mut}
+	if v != nil {
+		o = goDecodeVia(e, v, b)
+		c.Via = v.name
+		g.res.Count("via:" + v.name)
+	} else {
+		o = goDecode(e, b, true)
+	}
 	if o.Panic != "" {
-		g.hit(hit{What: "panic:decode:" + e.name, Type: e.name, Bytes: c.Bytes, Note: o.Panic})
+		g.hit(hit{What: "panic:decode:" + e.name, Type: e.name, Bytes: c.Bytes, Note: o.Panic, Via: c.Via})
 		g.res.Count("decode_panic")
 		return
 	}
@@ -525,7 +703,7 @@ func (g *genState) bytesCase(e *entry, b []byte, mut string) {
 		if cl == "" {
 			what = "noncanonical-accept:unclassified:" + e.name
 		}
-		g.hit(hit{What: what, Type: e.name, Bytes: c.Bytes, Re: c.Re, Note: mut})
+		g.hit(hit{What: what, Type: e.name, Bytes: c.Bytes, Re: c.Re, Note: mut, Via: c.Via})
 	}
 	if bytes.Equal(re, b) {
 		c.coq = fmt.Sprintf("PDecSame %d %s", e.id, byteList(b))
@@ -599,6 +777,24 @@ func (g *genState) hostile(e *entry) ([]byte, string) {
 		return enc(randItem(r, 0)), "random-item"
 	}
 	b := seeds[r.Intn(len(seeds))]
+	if r.Chance(14) { // something after a complete, valid value
+		c := append([]byte{}, b...)
+		switch r.Intn(5) {
+		case 0:
+			return append(c, 0x00), "tail:zero-byte"
+		case 1:
+			return append(c, 0x80), "tail:empty-string"
+		case 2:
+			return append(c, r.Bytes(1+r.Heavy(40))...), "tail:garbage"
+		case 3:
+			return append(c, seeds[r.Intn(len(seeds))]...), "tail:second-value"
+		default:
+			if len(c) < 1500 {
+				return append(c, r.Bytes(4096)...), "tail:4k-junk"
+			}
+			return append(c, 0xc0), "tail:empty-list"
+		}
+	}
 	if r.Chance(25) { // byte-level
 		c := append([]byte{}, b...)
 		switch r.Intn(5) {
@@ -657,8 +853,10 @@ func gen(seed uint64, n int, outDir, corpusDir string) {
 		b, _ := hex.DecodeString(h.Bytes)
 		if h.Type == "interface" {
 			g.itemCase(b)
+		} else if e := entryByName(h.Type); e != nil && h.Mode == "stream" {
+			g.streamCase(e, b, "corpus")
 		} else if e := entryByName(h.Type); e != nil {
-			g.bytesCase(e, b, "corpus")
+			g.bytesCaseVia(e, viaByName(e, h.Via), b, "corpus")
 			if h.Expect == "reject" && goDecode(e, b, false).Accepted {
 				g.hit(hit{What: "regression:repaired-finding-accepted-again:" + e.name, Type: e.name, Bytes: h.Bytes, Note: h.Note})
 			}
@@ -764,7 +962,11 @@ func replay(file string) {
 			fmt.Println("unknown type", h.Type)
 			os.Exit(2)
 		}
-		g.bytesCase(e, b, "replay")
+		if h.Mode == "stream" {
+			g.streamCase(e, b, "replay")
+		} else {
+			g.bytesCaseVia(e, viaByName(e, h.Via), b, "replay")
+		}
 		if (h.Expect == "reject" || strings.HasPrefix(h.What, "regression:")) && goDecode(e, b, false).Accepted {
 			g.hit(hit{What: "regression:repaired-finding-accepted-again:" + e.name, Type: e.name, Bytes: h.Bytes})
 		}
@@ -800,6 +1002,8 @@ func main() {
 		gen(*seed, *n, *out, *corpus)
 	case "schemas":
 		schemasCmd(*out)
+	case "callsites":
+		callSitesCmd(*out)
 	case "replay":
 		replay(*file)
 	default:
